@@ -149,6 +149,15 @@ def body(E, op, n, m, num_pts, npt_so_far, with_h, scaling=False):
         else:
             E.prove(from_opt, op + ':result-is-one-whole-record')
         E.prove(E.same(obj, objective(E, M, r, x)), op + ':obj-is-F-of-returned-r-and-x')
+        # C11: the Jacobian and the evaluation numbers handed back belong to the same record as x
+        sameA = lambda A_, B_: (A_ is None and B_ is None) or (A_ is not None and B_ is not None and tuple(A_.shape) == tuple(B_.shape) and
+                                                                 E.all([E.same(p_, q_) for p_, q_ in zip(E.flat(A_), E.flat(B_))]))
+        jac_opt = E.all([from_opt, sameA(jac, M.model_jac), sameA(jev, M.model_jac_eval_nums)])
+        if M.objsave is not None:
+            jac_save = E.all([from_save, sameA(jac, M.jacsave), sameA(jev, M.jacsave_eval_nums)])
+            E.prove(E.any([jac_opt, jac_save]), 'C11:get_final_results:jacobian-and-eval-numbers-belong-to-the-returned-record')
+        else:
+            E.prove(jac_opt, 'C11:get_final_results:jacobian-and-eval-numbers-belong-to-the-returned-record')
 
 
 def check_slots_unchanged(E, M, ghost, op):
